@@ -34,7 +34,9 @@ import props as P  # noqa: E402
 BASELINE = os.path.join(HERE, "baseline_obligations.json")
 KNOWN = os.path.join(HERE, "known_findings.json")
 REPLAYS = os.path.join(HERE, "replays")
-EVIDENCE = os.path.join(HERE, "evidence")
+# (tools/seedrun.sh and tools/benignrun.sh point this elsewhere so that runs on a
+# deliberately changed tree never overwrite the committed evidence)
+EVIDENCE = os.environ.get("VERIF_EVIDENCE_DIR") or os.path.join(HERE, "evidence")
 
 ASSUMPTIONS = {
     "A1": "Python int is mathematical; struct field ranges are obligations at every pack, except that store sizes (hence block addresses) are assumed < 2**62",
